@@ -79,6 +79,18 @@ def _purity_typed(idx, rep, an, m: FunctionInfo, prot, ci: ClassInfo, ptypes, la
     rule = "K1.operands"
     fa = an.analyze(m, ci, param_types=ptypes)
     where = (m.module.relpath if not m.module.external else "site-packages/" + m.module.name.replace(".", "/") + ".py", label)
+    # a non-in-place operation returns a new object, never one of its operands (an aliased result lets a later
+    # in-place step on the result rewrite the operand)
+    dname = label.split(".")[-1]
+    if dname in PURE_DUNDERS and dname not in ("__eq__", "__ne__"):
+        aliased = sorted({o[1] for o in fa.returned if is_P(o) and o[2] == () and o[1] in prot})
+        if aliased:
+            rets = [n for n in ast.walk(m.node) if isinstance(n, ast.Return)]
+            rep.violation("K1.fresh-result", where, rets[0] if rets else m.node, text=f"{label} may return its operand {', '.join(aliased)}",
+                          what="binary arithmetic returns a new object (the result never aliases an operand)",
+                          reason=f"{label} can return the very object passed as {', '.join(aliased)}: `r = ...; r += x` then rewrites the operand (defined in {m.qualname})")
+        else:
+            rep.ok("K1.fresh-result", where, m.node, text=f"{label} returns a new object", what="binary arithmetic returns a new object (the result never aliases an operand)")
     for p in prot:
         evs = [e for e in fa.events if is_P(e.obj) and e.obj[1] == p]
         seen = {}
